@@ -218,7 +218,9 @@ func getFieldDecoder(pInfo parentInfos, field reflect.StructField, index int, by
 
 	// base type decoder
 	dec, err := getBaseTypeTextDecoder(field, index, fieldTagInfos, pInfo.Indexes, config)
-	return dec, needValidate, err
+	// an interface field may hold a struct with rules of its own: the decoder
+	// cannot see it, the validator walks into it
+	return dec, needValidate || field.Type.Kind() == reflect.Interface, err
 }
 
 // hasSameType determine if the same type is present in the parent-child relationship
